@@ -7,11 +7,12 @@ Driver requests for L3–L5 (container fragment):
     (roundtrip (F (item…) <endGap>))  →  (ok <text>) | (err <class>) | (uncovered <why>)
     (pieces    (F (item…) <endGap>))  →  (ok (t|c|w <text>)…) | (err <class>) | (uncovered <why>)
     (flatten   (F (item…) <endGap>))  →  (ok <text>)
-    (facts     (F …))                 →  (ok <orderOk> <beforeFlatB> <safe> <spacing nf> <tokens kept>)
+    (facts     (F …))                 →  (ok <orderOk> <beforeFlatB> <safe> <spacing nf> <tokens kept> <basic>)
     (norm      (F …))                 →  (ok <text> <cst>) for comment-free files: `File.norm`
 
     cst   ::= (l <kind> <text>) | (L (item…) <closeGap>) | (S <t|f> <recGap> (item…) <closeGap>)
             | (P (item…) <closeGap>) | (A cst (gc…) <gap> cst)
+            | (K <w|a> (gc…) <g1> cst (gc…) <g2> (gc…) <g3> cst)      (`with` / `assert`)
     item  ::= (c <gap> <text>) | (e <gap> cst)
             | (b <gap> <name> (gc…) <g1> (gc…) <g2> cst (gc…) <g3>)
     gc    ::= (<gap> <text>)
@@ -42,6 +43,9 @@ partial def decCst : SExp → Option Cst
   | .list [.atom "P", .list its, .atom cg] => do pure (.paren (← decItems its) (← decText cg))
   | .list [.atom "A", f, .list cs, .atom g, a] => do
       pure (.app (← decCst f) (← decGC cs) (← decText g) (← decCst a))
+  | .list [.atom "K", .atom w, .list c1, .atom g1, h, .list c2, .atom g2, .list c3, .atom g3, b] => do
+      pure (.kw (w == "w") (← decGC c1) (← decText g1) (← decCst h) (← decGC c2) (← decText g2) (← decGC c3)
+              (← decText g3) (← decCst b))
   | _ => none
 partial def decItems : List SExp → Option Items
   | [] => some .nil
@@ -67,6 +71,9 @@ partial def encCst : Cst → SExp
   | .set r rg its cg => .list [.atom "S", sBool r, sText rg, .list (encItems its), sText cg]
   | .paren its cg => .list [.atom "P", .list (encItems its), sText cg]
   | .app f cs g a => .list [.atom "A", encCst f, encGC cs, sText g, encCst a]
+  | .kw w c1 g1 h c2 g2 c3 g3 b =>
+    .list [.atom "K", .atom (if w then "w" else "a"), encGC c1, sText g1, encCst h, encGC c2, sText g2, encGC c3,
+      sText g3, encCst b]
 partial def encItems : Items → List SExp
   | .nil => []
   | .cmt g t rest => .list [.atom "c", sText g, sText t] :: encItems rest
@@ -87,7 +94,10 @@ def handle (req : SExp) : Option SExp :=
     match decFile f with
     | none => some (.list [.atom "bad-arg"])
     | some f =>
-      if !f.wf then some (.list [.atom "uncovered", .atom "wf"])
+      -- the string-level model is compared with the implementation on `File.modelled`, a superset of the
+      -- theorems' fragment `File.covered` (`assert`, comments in the inner gaps of `with` / `assert`)
+      if !(f.items.modelled .file f.endGap && f.items.countElems == 1 && isGap f.endGap) then
+        some (.list [.atom "uncovered", .atom "wf"])
       else if !f.noLeadingWs then some (.list [.atom "uncovered", .atom "leading-ws"])
       else match f.roundtrip with
         | .ok t => some (.list [.atom "ok", sText t])
@@ -116,7 +126,7 @@ def handle (req : SExp) : Option SExp :=
       else match f.parse with
         | .ok s => some (.list [.atom "ok", sBool f.orderOk, sBool s.beforeFlatB,
             sBool (safeGo false s.rebuildP), sBool (summ s.rebuildP).fileOk,
-            sBool (decide (toks s.rebuildP = f.codeTokens))])
+            sBool (decide (toks s.rebuildP = f.codeTokens)), sBool f.basic])
         | .error e => some (sErr e)
   | .list [.atom "norm", f] =>
     -- comment-free files: the tree of the output as the fixed-point theorem names it
